@@ -14,6 +14,7 @@ import (
 	"os"
 	"path/filepath"
 	"sync"
+	"sync/atomic"
 	"time"
 
 	"github.com/ethereum/go-ethereum/crypto"
@@ -221,8 +222,16 @@ func (e *Env) PostJSON(path string, v interface{}) (int, []byte, error) {
 	return e.PostRaw(path, j)
 }
 
+var postCount int64
+
 func (e *Env) PostRaw(path string, body []byte) (int, []byte, error) {
-	resp, err := httpClient.Post(e.url(path), "application/json", bytes.NewReader(body))
+	// every third order is sent with a body of undeclared length (chunked transfer, no Content-Length): the
+	// same order to the handler, read by a different path of the HTTP library
+	var rd io.Reader = bytes.NewReader(body)
+	if atomic.AddInt64(&postCount, 1)%3 == 0 {
+		rd = struct{ io.Reader }{bytes.NewReader(body)}
+	}
+	resp, err := httpClient.Post(e.url(path), "application/json", rd)
 	if err != nil {
 		return 0, nil, err
 	}
